@@ -509,10 +509,11 @@ def main():
         r = b.compile(path, os.path.join(sc, "replay"))
         v = classify(r)
         log("[replay] %s -> %s" % (rp.get("key"), v))
-        if v != "ok":
-            ck.violations.append((rp.get("key"), "replayed program still fails: %s %s" % (v, excerpt(r["out"])[:300]), rp["replay"], False))
-        ck.cov["evaluations"] = 1
-        ck.finish()
+        if v != "ok":     # evidence of the last full run is left alone
+            print("VIOLATION property=%s replay=%s" % (PID, ck.replay))
+            log("  -> replayed program still fails: %s %s" % (v, excerpt(r["out"])[:300]))
+            sys.exit(1)
+        sys.exit(0)
     ops = regen_operators(ck)
     coq_ok = ck.coq()
     ok, lg = b.ensure_native()
@@ -621,6 +622,7 @@ def main():
     ukey = {u: "cell %s type=%s ctx=%s" % (cell_name(cells[i]), admitted[i], x) for (u, i, x) in units}
     good, single = [], []
     skipped = 0
+    cell_of_unit = {u: (i, x) for (u, i, x) in units}
     for (u, i, x) in units:
         acc = cres.get(u, (False, None))[0]
         p = pred.get(i, {}).get("ctx", {}).get(x) if model_ok else None
@@ -639,6 +641,22 @@ def main():
             good.append(u)
         else:
             single.append(u)
+    if quick:
+        # predicted-bad units are compiled alone: keep up to 3 contexts per failing cell, and a sample of the cells
+        # whose only failing context is the list literal of lists
+        by_cell = {}
+        for u in single:
+            by_cell.setdefault(cell_of_unit[u][0], []).append(u)
+        kept = []
+        for i in sorted(by_cell):
+            us = by_cell[i]
+            if pred.get(i, {}).get("cell_ok", True):
+                if ck.rng.random() < 0.08:
+                    kept += us
+            else:
+                kept += ck.rng.sample(us, min(3, len(us)))
+        skipped += len(single) - len(kept)
+        single = kept
     ck.rng.shuffle(good)
     BATCH = 40
     batches = [good[k:k + BATCH] for k in range(0, len(good), BATCH)]
@@ -727,7 +745,7 @@ def main():
     ck.count(len(ex))
     eacc = [j for j in range(len(ex)) if eres.get(j, (False, None))[0]]
     if quick:
-        eacc = [j for j in eacc if not ex[j][0].startswith("stmt=FORSTEP") or ck.rng.random() < 0.35]
+        eacc = [j for j in eacc if not ex[j][0].startswith("stmt=FORSTEP") or ck.rng.random() < 0.2]
     known_pat = [re.compile(k["key"]) for k in ck.known]
     esingle = [j for j in eacc if any(p.search(ex[j][0] + " verdict=" + v) for p in known_pat for v in ("internal-error", "llvm-reject", "link-fail"))]
     egood = [j for j in eacc if j not in set(esingle)]
@@ -752,7 +770,7 @@ def main():
         predicted_bad_units=len(single), programs_compiled=be.programs, statement_cells=len(ex), statement_cells_admitted=len(eacc),
         temporary_flavour_units=temp_units, failing_units=n_viol, model_disagreements=len(disagreements), checker_table_mismatches=len(tc_mismatch),
         operators=dict(unary=un, binary=bi, ternary=te, cast=ca), type_classes=KEYS, contexts=CTX_ALL,
-        input_distribution="enumeration, no sampling in the frontend leg: every operator of operators.go x every tuple of %d operand classes (%d cells) through the real frontend; every admitted cell x every applicable value context (%s) through kddp+LLVM+gcc (quick tier: initialiser contexts VI/IN for every admitted cell, 20%% seeded sample of the other contexts of cells predicted fine, every (cell, context) predicted bad alone); statement operand positions (repeat count, loop condition, list count/literal, indexed assignment, counting and range loops) x classes judged directly" % (len(KEYS), len(cells), ",".join(CTX_ALL)),
+        input_distribution="enumeration, no sampling in the frontend leg: every operator of operators.go x every tuple of %d operand classes (%d cells) through the real frontend; every admitted cell x every applicable value context (%s) through kddp+LLVM+gcc (quick tier: initialiser contexts VI/IN for every admitted cell, 20%% seeded sample of the other contexts of cells predicted fine, up to 3 contexts of every cell predicted bad and 8%% of the list-literal-of-lists units alone; thorough: everything, plus every cell again with call results as operands in 5 contexts); statement operand positions (repeat count, loop condition, list count/literal, indexed assignment, counting and range loops) x classes judged directly" % (len(KEYS), len(cells), ",".join(CTX_ALL)),
         rule="distinct = (operator, operand classes, context) triples resp. statement cells; non-trivial = admitted by the frontend, i.e. the code generator ran on it"))
     a = [i for i in sorted(admitted)][:3]
     for i in a:
